@@ -69,6 +69,13 @@ theorem hand_ite {c : Prop} {_ : Decidable c} (n : Nat) (x y : St) (name : Nat) 
 theorem and_and_self' (x v : Reg) : x &&& v &&& v = x &&& v := by
   ext i hi; simp
 
+/-- `(x & k) & (y & k) = (x & k) & y`: once the status byte is masked (k = ~STB_SRQ), masking SRE as well changes
+nothing, and the other way round (stated for any mask: `simp` evaluates `~~~64#16` to a literal) -/
+theorem and_mask_right (x y k : Reg) : (x &&& k) &&& (y &&& k) = (x &&& k) &&& y := by
+  ext i hi; simp; cases x[i] <;> cases y[i] <;> cases k[i] <;> simp
+theorem and_mask_left (x y k : Reg) : x &&& (y &&& k) = (x &&& k) &&& y := by
+  ext i hi; simp; cases x[i] <;> cases y[i] <;> cases k[i] <;> simp
+
 /-- in a register file of SCPI_REG_COUNT entries the range test of SCPI_RegGet is redundant: a direct read
 `context->registers[i]` and `SCPI_RegGet(context, i)` agree wherever the direct read is defined (and, in the model, also
 outside: both yield 0) -/
@@ -79,7 +86,7 @@ theorem getD_guard (l : List Reg) (i : Nat) (h : l.length = 10) : (if i < 10 the
 
 macro "fin" ih:ident hlen:ident : tactic =>
   `(tactic| ((try simp only [toSt_ite, loop_ite, hand_ite])
-             (try simp (disch := simp only [List.length_set, $hlen:ident]) [Regs.get, put, and_and_self', getD_guard])
+             (try simp (disch := simp only [List.length_set, $hlen:ident]) [Regs.get, put, and_and_self', getD_guard, and_mask_right, and_mask_left])
              repeat' split
              all_goals (try simp (disch := simp only [List.length_set, $hlen:ident]) only [$ih:ident])
              all_goals (try simp [toSt])))
